@@ -129,4 +129,38 @@ func init() {
 		"	if err = db.fc.rejuvenate(key); err != nil {\n		return err\n	}\n", "", "C04.R3.gc")
 	mut("C04", "unary delete keeps the stale offset cache", "cesium/internal/unary/delete.go",
 		"		return err\n	}\n	db.resolver.invalidate()\n	return nil\n}\n\n// calculateStartOffset", "		return err\n	}\n	return nil\n}\n\n// calculateStartOffset", "C04.R4.cache")
+
+	// ---------------- C05
+	const uwr = "cesium/internal/unary/writer.go"
+	const reggo = "cesium/internal/control/region.go"
+	const wsgo = "cesium/writer_stream.go"
+	mut("C05", "unary write uses the resource before testing the Authorize error", uwr,
+		"	dw, err := w.control.Authorize()\n	if err != nil {\n		return 0, w.wrapError(err)\n	}\n	if w.Channel.IsIndex {",
+		"	dw, err := w.control.Authorize()\n	if w.Channel.IsIndex {", "C05.R1.authorize")
+	mut("C05", "commitWithEnd ignores the Authorize error", uwr,
+		"	dw, err := w.control.Authorize()\n	if err != nil {\n		return 0, err\n	}\n\n	if end.IsZero() {",
+		"	dw, err := w.control.Authorize()\n	_ = err\n\n	if end.IsZero() {", "C05.R1.authorize")
+	mut("C05", "unary writer keeps a raw domain writer", uwr,
+		"	control *control.Gate[*controlledWriter]\n", "	control *control.Gate[*controlledWriter]\n	raw     *domain.Writer\n", "C05.R1.authorize")
+	mut("C05", "Controller.remove checks emptiness before taking the controller lock", ctlgo,
+		"	c.mu.Lock()\n	defer c.mu.Unlock()\n	// Re-check that the region is still empty.",
+		"	r.RLock()\n	stillHasGates := len(r.gates) > 0\n	r.RUnlock()\n	if stillHasGates {\n		return\n	}\n	c.mu.Lock()\n	defer c.mu.Unlock()\n	if true {\n		for i, reg := range c.regions {\n			if reg == r {\n				c.regions = slices.Delete(c.regions, i, i+1)\n				break\n			}\n		}\n		return\n	}\n	// Re-check that the region is still empty.", "C05.R2.atomic")
+	mut("C05", "gate position taken from the current number of gates", reggo,
+		"		position:  r.counter,", "		position:  uint(len(r.gates)),", "C05.R2.atomic")
+	mut("C05", "region counter decremented on release", reggo,
+		"	r.gates.Remove(g)\n	if r.curr != g {", "	r.gates.Remove(g)\n	r.counter--\n	if r.curr != g {", "C05.R2.atomic")
+	mut("C05", "region.update mutates without the region lock", reggo,
+		"func (r *region[R]) update(g *Gate[R], auth control.Authority) (t Transfer) {\n	r.Lock()\n	defer r.Unlock()\n",
+		"func (r *region[R]) update(g *Gate[R], auth control.Authority) (t Transfer) {\n", "C05.R2.GUARD")
+	mut("C05", "setAuthority drops transfers of virtual channels", wsgo,
+		"			if t := chW.SetAuthority(auth); t.Occurred() {\n				u.Transfers = append(u.Transfers, t)\n			}\n		}\n	}\n\n	for _, idx := range w.internal {",
+		"			_ = chW.SetAuthority(auth)\n		}\n	}\n\n	for _, idx := range w.internal {", "C05.R3.transfers")
+	mut("C05", "close never publishes the release transfers", wsgo,
+		"	if len(parentUpdate.Transfers) > 0 {\n		_ = w.updateDBControl(ctx, parentUpdate)\n	}\n", "", "C05.R3.transfers")
+	mut("C05", "open forgets the transfer of data channels", "cesium/writer_open.go",
+		"		if transfer.Occurred() {\n			controlUpdate.Transfers = append(controlUpdate.Transfers, transfer)\n		}\n		idxW.internal[key] = &unaryWriterState{Writer: *uW}",
+		"		_ = transfer\n		idxW.internal[key] = &unaryWriterState{Writer: *uW}", "C05.R3.transfers")
+	mut("C05", "idxWriter.Close collects only transfers of failed closes", wsgo,
+		"		} else if transfer.Occurred() {\n			update.Transfers = append(update.Transfers, transfer)\n		}\n	}\n	return update, err\n}\n\nfunc invalidDataTypeError",
+		"			if transfer.Occurred() {\n				update.Transfers = append(update.Transfers, transfer)\n			}\n		}\n	}\n	return update, err\n}\n\nfunc invalidDataTypeError", "C05.R3.transfers")
 }
